@@ -570,6 +570,42 @@ pub mod authenticator {
         pub open spec fn allow_ids(input: Request) -> Option<Seq<PublicKeyCredentialDescriptor>> {
             match input.allow_list { Some(l) => if l@.len() > 0 { Some(l@) } else { None }, None => None }
         }
+        // the credential named by the response, looked up in what the store listed (first entry with that id)
+        pub open spec fn by_id<I>(found: Seq<I>, id: Seq<u8>) -> Passkey
+            decreases found.len()
+        {
+            if found.len() == 0 { arbitrary() } else if item_passkey(found[0]).credential_id@ == id { item_passkey(found[0]) } else { by_id(found.drop_first(), id) }
+        }
+        pub open spec fn has_id<I>(found: Seq<I>, id: Seq<u8>) -> bool
+            decreases found.len()
+        {
+            found.len() > 0 && (item_passkey(found[0]).credential_id@ == id || has_id(found.drop_first(), id))
+        }
+        pub open spec fn ids_distinct<I>(found: Seq<I>) -> bool {
+            forall|i: int, j: int| #![trigger found[i], found[j]] 0 <= i < j < found.len() ==> item_passkey(found[i]).credential_id@ != item_passkey(found[j]).credential_id@
+        }
+        // with pairwise distinct ids, looking an entry up by its own id returns that entry
+        pub proof fn lemma_by_id<I>(found: Seq<I>, k: int)
+            requires ids_distinct(found), 0 <= k < found.len(),
+            ensures by_id(found, item_passkey(found[k]).credential_id@) == item_passkey(found[k]), has_id(found, item_passkey(found[k]).credential_id@),
+            decreases k
+        {
+            if k > 0 {
+                let rest = found.drop_first();
+                assert forall|i: int, j: int| #![trigger rest[i], rest[j]] 0 <= i < j < rest.len() implies item_passkey(rest[i]).credential_id@ != item_passkey(rest[j]).credential_id@ by {
+                    assert(rest[i] == found[i + 1] && rest[j] == found[j + 1]);
+                }
+                lemma_by_id(rest, k - 1);
+                assert(rest[k - 1] == found[k]);
+                assert(item_passkey(found[0]).credential_id@ != item_passkey(found[k]).credential_id@);
+            }
+        }
+        pub proof fn lemma_by_id_all<I>(found: Seq<I>)
+            requires ids_distinct(found),
+            ensures forall|k: int| #![trigger found[k]] 0 <= k < found.len() ==> by_id(found, item_passkey(found[k]).credential_id@) == item_passkey(found[k]) && has_id(found, item_passkey(found[k]).credential_id@),
+        {
+            assert forall|k: int| #![trigger found[k]] 0 <= k < found.len() implies by_id(found, item_passkey(found[k]).credential_id@) == item_passkey(found[k]) && has_id(found, item_passkey(found[k]).credential_id@) by { lemma_by_id(found, k); }
+        }
         // the credential shown for consent = the first one the store lists
         pub open spec fn shown_item<S: CredentialStore>(st: S, input: Request) -> Option<S::PasskeyItem> {
             match st.spec_find(allow_ids(input), input.rp_id@) { Ok(v) => if v.len() > 0 { Some(v[0]) } else { None }, Err(_) => None }
